@@ -1,5 +1,6 @@
 """C02 — Heat-bath diagonal update yields the same equilibrium as the default update (partial: see design_notes/C02.md)."""
 from checks import big_scale
+from checks import extra_c02limit
 from checks import kern, law_audits
 from checks import pure_fns
 from checks import api_cov
@@ -59,5 +60,6 @@ def main(ck):
     law_audits.run(ck, groups=['refine', 'ideal', 'heatbath', 'good'])   # idealised law of the executable model = the Markov kernel of the invariance theorems
     api_cov.run(ck, "c08")   # otherwise unexercised public API, model-free oracles of this property
     scale_inv.run(ck, "c02", tags=["C09", "C01", "C04"])   # heat-bath-on scenarios: ANY call whose scaled twin diverges (sweep, cluster step, time step) breaks "heat-bath on still converges" (model-free twin oracle)
+    extra_c02limit.run(ck)   # capstone + limit L -> infinity for the time step WITH the heat-bath sweep
     big_scale.run(ck, "longstring.schedule", tags=["C12", "C06"])   # large-scale regime (>65536 bonds/ops/slots, release semantics): model-free oracles of the property statements
     return ck.finish(RULE)
